@@ -116,7 +116,7 @@ func findTarShape(p *load.Program) *tarShape {
 
 func runC12(c *core.Ctx) {
 	runFixtures(c, "drop", "valid", "read")
-	c.Explain("Structural clauses of C12 decided from source (thin: contents, modes, 'nothing else' and writer schedules are behaviour): (R12.1) every read of archive/tar.Header.Name in package tar is passed through the normaliser (path.Clean + leading-\"/\" trim) and the normalised name reaches only calls on the destination file system (interface methods, FS helpers), the announce key and path.Dir — package tar contains no primitive sink, so an escaping '../x' is refused by the destination's own validation (C04/A1); (R12.2) the error of every destination-FS call and every copy step in the unpack functions and their background closures propagates: returned, wrapped, or sent on the error channel whose receive ends the unpack with that error (accepted: errors.Is(ErrExist) on Mkdir of a directory entry, which continues with Chmod; io.EOF on the tar stream); (R12.3) on that ErrExist edge Chmod is called with the header's mode; (R12.4) the destination calls for an entry are made after the success edge of creating its parent path; (R12.5) every buffer taken from a pool is given back on every path that does not end the unpack with an error, closure continuations included, and no path (callees and spawned writers counted) gives the same buffer back twice — a buffer that is in the pool twice is handed to two later entries, whose bytes then mix; (R12.6) the normaliser applies path.Clean to the entry name itself: cleaning a string with '/' prepended silently drops leading '..' elements, so an entry that resolves outside the root would be unpacked inside it instead of failing the unpack; (R12.7) the Mkdir/Chmod of a directory entry runs in the read loop itself, not in a spawned writer: in the background it races with the next entry's preparation of the same directory as a parent (0700), and the header's mode can be lost depending on the schedule; (R12.8) the blocking select that ends the unpack ('an error, or all writers done') polls the error channel again on the done branch before it reports success, because both cases can be ready at once. (R12.9) every direct Read call in package tar is a delegation, a call of the package's own full reader, or a loop that is left only on an error / a full buffer and whose successful returns looked at the count of the latest Read (the last chunk of an entry arrives together with io.EOF). (R12.10) the entry-processing function returns nil only on paths that created the directory entry on the destination, called the writer or spawned a background writer; (R12.11) the write methods of the key-value handle (the default destination is mem.FS) never store the caller's buffer, only copy from it — the reader returns its buffers to a pool as soon as Write returns. (R12.12) the buffer pool reserves a slot only where count == cap is excluded. (R12.14) entry-name relations on element boundaries; (R12.15) files are created with the header's own mode. NOT claimed: the resulting tree.")
+	c.Explain("Structural clauses of C12 decided from source (thin: contents, modes, 'nothing else' and writer schedules are behaviour): (R12.1) every read of archive/tar.Header.Name in package tar is passed through the normaliser (path.Clean + leading-\"/\" trim) and the normalised name reaches only calls on the destination file system (interface methods, FS helpers), the announce key and path.Dir — package tar contains no primitive sink, so an escaping '../x' is refused by the destination's own validation (C04/A1); (R12.2) the error of every destination-FS call and every copy step in the unpack functions and their background closures propagates: returned, wrapped, or sent on the error channel whose receive ends the unpack with that error (accepted: errors.Is(ErrExist) on Mkdir of a directory entry, which continues with Chmod; io.EOF on the tar stream); (R12.3) on that ErrExist edge Chmod is called with the header's mode; (R12.4) the destination calls for an entry are made after the success edge of creating its parent path; (R12.5) every buffer taken from a pool is given back on every path that does not end the unpack with an error, closure continuations included, and no path (callees and spawned writers counted) gives the same buffer back twice — a buffer that is in the pool twice is handed to two later entries, whose bytes then mix; (R12.6) the normaliser applies path.Clean to the entry name itself: cleaning a string with '/' prepended silently drops leading '..' elements, so an entry that resolves outside the root would be unpacked inside it instead of failing the unpack; (R12.7) the Mkdir/Chmod of a directory entry runs in the read loop itself, not in a spawned writer: in the background it races with the next entry's preparation of the same directory as a parent (0700), and the header's mode can be lost depending on the schedule; (R12.8) the blocking select that ends the unpack ('an error, or all writers done') polls the error channel again on the done branch before it reports success, because both cases can be ready at once. (R12.9) every direct Read call in package tar is a delegation, a call of the package's own full reader, or a loop that is left only on an error / a full buffer and whose successful returns looked at the count of the latest Read (the last chunk of an entry arrives together with io.EOF). (R12.10) the entry-processing function returns nil only on paths that created the directory entry on the destination, called the writer or spawned a background writer; (R12.11) the write methods of the key-value handle (the default destination is mem.FS) never store the caller's buffer, only copy from it — the reader returns its buffers to a pool as soon as Write returns. (R12.12) the buffer pool reserves a slot only where count == cap is excluded. (R12.14) entry-name relations on element boundaries; (R12.15) files are created with the header's own mode. (R12.16) by-name methods of the default destination save no record looked up under another name; (R12.17) destination files are created with O_TRUNC; R12.14 covers package mem as well. NOT claimed: the resulting tree.")
 	c.Assume("A1: the destination file system rejects names that would escape its root", "A2: archive/tar, path, io behave as documented")
 	c.RuleDoc("R12.1", "header names normalised and only delegated")
 	c.RuleDoc("R12.2", "a refused or failing entry fails the unpack")
